@@ -227,6 +227,9 @@ package index
 //@   call[append#0] assert record_kept_with_its_offset [C03,C11]: len(arg1) == 1 && ref(arg1[0].digest) == ref(dec.Digest) && arg1[0].index == item.Offset
 //@   call[mapupdate#1] assert listed_under_its_digest_length [C03,C11]: key == len(dec.Digest)
 //@   note the layout of the compact form (record of rank k in slot k) is not under contract: products of two variables
+//@   ghost after call[sort.Sort#0]: mark(m) := len(lst)
+//@   call[mapupdate#2] assert every_sorted_record_is_laid_out [C03,C05,C11]: len(lst) == mark(m)
+//@   note every_sorted_record_is_laid_out: the list that is laid out is the list that was grouped and sorted — nothing is dropped in between
 //@   call[mapupdate#2] assert bucket_fields [C03,C11]: key == wrap_u32(wrap_u32(width) + 8) && value.width == wrap_u32(rcrdWdth) && value.len == len(lst) && ref(value.index) == ref(compact)
 
 // Iteration (C11): every digest of a coded bucket is yielded as the multihash of that digest under the bucket's own
